@@ -102,6 +102,31 @@ theorem upd_ctl (w : World) (x f) : SameCtl w (w.upd x f) := ⟨rfl, rfl, rfl, r
 theorem updMeta_ctl (w : World) (x f) : SameCtl w (w.updMeta x f) := ⟨rfl, rfl, rfl, rfl⟩
 theorem emit_ctl (w : World) (e) : SameCtl w (w.emit e) := ⟨rfl, rfl, rfl, rfl⟩
 
+theorem updAll_ctl (w : World) (l : List Id) (f) : SameCtl w (w.updAll l f) := by
+  unfold updAll
+  induction l generalizing w with
+  | nil => exact SameCtl.refl w
+  | cons x r ih => simp only [List.foldl_cons]; exact (upd_ctl w x f).trans (ih _)
+
+theorem updAll_same (w : World) (l : List Id) (f) :
+    (w.updAll l f).pc = w.pc ∧ (w.updAll l f).events = w.events ∧ (w.updAll l f).metas = w.metas ∧
+    (w.updAll l f).H = w.H ∧ (w.updAll l f).allocBytes = w.allocBytes ∧ (w.updAll l f).mode = w.mode ∧ (w.updAll l f).next = w.next := by
+  unfold updAll
+  induction l generalizing w with
+  | nil => simp
+  | cons x r ih => simp only [List.foldl_cons]; have := ih (w.upd x f); simpa [upd] using this
+
+/-- `updAll` applies `f` to members (idempotent `f`) and leaves the others alone. -/
+theorem updAll_heap_not_mem (w : World) (l : List Id) (f) (y : Id) (h : y ∉ l) : (w.updAll l f).heap y = w.heap y := by
+  unfold updAll
+  induction l generalizing w with
+  | nil => rfl
+  | cons x r ih =>
+    simp only [List.foldl_cons]
+    have hy : y ≠ x := fun e => h (e ▸ List.mem_cons_self ..)
+    rw [ih _ (fun hm => h (List.mem_cons_of_mem _ hm))]
+    simp [upd, Heap.set, hy]
+
 theorem cloneOk_ctl (w : World) (x) : SameCtl w (w.cloneOk x) :=
   (upd_ctl w x _).trans (removeFromList_ctl _ x)
 
